@@ -31,8 +31,8 @@ M = {
                                     "            cell.title = 0\n        else:\n            cell.title = titles[cell.title]")], 'unknown title resolves to the first sheet'),
     'c02-absolute-row-off': ('C02', [(SRC + 'tokens/regexp_tokens/__init__.py', "                              row=self.value[6])", "                              row=self.value[6] if '$' not in self.value[0][-len(self.value[6]) - 1:] else str(int(self.value[6]) + 1))")],
                              'a $-absolute row of a single-cell reference is read one row lower'),
-    'c08-getcell-grows-sizes': ('C08', [(SRC + 'utilities/executor.py', "        handle_cell(cell, self._titles)\n        cell.value = self._executed_instance.exec_function_in(cell.uid)",
-                                         "        handle_cell(cell, self._titles)\n        self._sheets_size[cell.title]['last_row'] = max(cell.row + 1, self._sheets_size[cell.title]['last_row'])\n        cell.value = self._executed_instance.exec_function_in(cell.uid)")],
+    'c08-getcell-grows-sizes': ('C08', [(SRC + 'utilities/executor.py', "        self._handle_one_cell(cell)\n        cell.value = self._executed_instance.exec_function_in(cell.uid)",
+                                         "        self._handle_one_cell(cell)\n        self._sheets_size[cell.title]['last_row'] = max(cell.row + 1, self._sheets_size[cell.title]['last_row'])\n        cell.value = self._executed_instance.exec_function_in(cell.uid)")],
                                 'a query beyond the used range grows the reported sheet size'),
     'c08-sheet-extra-row': ('C08', [(SRC + 'utilities/executor.py', "for row in range(sheet_size.get('last_row', 0)):", "for row in range(sheet_size.get('last_row', 0) + (1 if self._cells else 0)):")],
                             'get_sheet has one row too many once overrides exist'),
@@ -84,7 +84,7 @@ M = {
     'c17-search-tilde': ('C17', [(CTX, "and text[index + 1] in '?*~':", "and text[index + 1] in '?*':")], '~~ is not an escaped tilde'),
     'c17-blank-text-form': ('C17', [(CTX, "        if isinstance(value, self.EmptyCell):\n            return ''\n\n        if isinstance(value, bool):", "        if isinstance(value, bool):")],
                             'a blank operand of & becomes "0" again (the repaired defect)'),
-    'c17-value-int-only': ('C17', [(CTX, "            text = text.replace(\",\", \".\")\n            return float(text)", "            text = text.replace(\",\", \".\")\n            return float(text) if 'e' not in text.lower() else '#VALUE!'")],
+    'c17-value-int-only': ('C17', [(CTX, "            if plain:\n                return float(text)\n", "            if plain:\n                return float(text) if 'e' not in text.lower() else '#VALUE!'\n")],
                            'VALUE refuses exponent notation'),
     'c12-ge-for-gt': ('C12', [(CTX, "            case '>':\n                return left_operand > right_operand", "            case '>':\n                return left_operand >= right_operand")],
                       '> behaves as >= (comparison operators and criteria share _by_operator)'),
@@ -117,7 +117,7 @@ M = {
                                    'VLOOKUP compares text keys by code point again (the repaired defect)'),
     'c19-array-formula-object-scanned': ('C19', [(SRC + 'excel.py', "scanned = cell.value.text if isinstance(cell.value, ArrayFormula) else cell.value", "scanned = cell.value")],
                                          'the safety scan looks at the ArrayFormula object instead of its text (the repaired defect)'),
-    'c03-entry-cell-not-refilled': ('C03', [(SRC + 'utilities/parser.py', "CellTranslator.translate(excel.fill_cell(copy(self._entrypoint_cell)), excel, context)", "CellTranslator.translate(copy(self._entrypoint_cell), excel, context)")],
+    'c03-entry-cell-not-refilled': ('C03', [(SRC + 'utilities/parser.py', "CellTranslator.translate(excel.fill_cell(copy(entrypoint_cell)), excel, context)", "CellTranslator.translate(copy(entrypoint_cell), excel, context)")],
                                     'an entry Cell handed out by an Executor is registered as its computed constant (the repaired defect)'),
     'c06-column-code-int': ('C06', [(SRC + 'translators/column_cc_token_translator.py', "return str(token.in_cell.column + 1)", "return token.in_cell.column + 1")],
                             'COLUMN() emits an int as code: =SUM(COLUMN(),1) ends translation with TypeError (the repaired defect)'),
@@ -169,8 +169,8 @@ M = {
                                          'a date-only override enters the computation as datetime.date again (part of the repaired defect d5a9303)'),
     'c04-foreign-blank-object': ('C04', [(CTX, "            if value is None or (type(value).__name__ == 'EmptyCell' and not isinstance(value, self.EmptyCell)):", "            if value is None:")],
                                  'the blank object handed out by another generated class is kept as it is (part of the repaired defect d5a9303)'),
-    'c04-refused-batch-grows-size': ('C04', [(SRC + 'utilities/executor.py', "            handle_cell(cell, self._titles)\n\n        for cell in cells:",
-                                              "            handle_cell(cell, self._titles)\n            self._sheets_size[cell.title]['last_row'] = max(cell.row + 1, self._sheets_size[cell.title]['last_row'])\n\n        for cell in cells:")],
+    'c04-refused-batch-grows-size': ('C04', [(SRC + 'utilities/executor.py', "            self._handle_one_cell(cell)\n\n        for cell in cells:",
+                                              "            self._handle_one_cell(cell)\n            self._sheets_size[cell.title]['last_row'] = max(cell.row + 1, self._sheets_size[cell.title]['last_row'])\n\n        for cell in cells:")],
                                      'a batch refused at its second cell has already grown the sheet for its first (part of the repaired defect 44c45aa)'),
     'c04-generator-batch-lost': ('C04', [(SRC + 'utilities/executor.py', "        cells = list(cells)\n", "")], 'a batch given as a generator is walked twice and stores nothing (part of 44c45aa)'),
     'c04-callers-objects-kept': ('C04', [(SRC + 'utilities/executor.py', "{cell.uid: copy(cell) for cell in cells}", "{cell.uid: cell for cell in cells}")], 'the overrides are the caller\'s Cell objects again (part of 44c45aa)'),
